@@ -412,8 +412,10 @@ def szx_ay_chunk(chk, prog, ln):
         st.store[ld.EMU] = emu.with_field(prog.field_index(ln.EM, "settings"), s)
         data = Agg(("array",), 0, [tm.sym("ay[%d]" % i, 8) for i in range(18)])
         st.store[("h", "aydata")] = data
-        mid = tm.sym("machine_id", 32)
-        rs = w.run(prog.fn(AYB), [Ref(ld.EMU, (), True), mid, Ref(("h", "aydata"), (), False, K(18, 64))], genv={"H": ld.H}, state=st)
+        fnb = prog.fn(AYB)
+        # the machine id in whatever type the handler takes it (a plain integer or a wrapper)
+        mid = w.symval("machine_id", fnb.T[fnb.body["locals"][2]])
+        rs = w.run(fnb, [Ref(ld.EMU, (), True), mid, Ref(("h", "aydata"), (), False, K(18, 64))], genv={"H": ld.H}, state=st)
         key = "T-TABLE/szx::load/%s/AY" % m
         good = [r for r in rs if r.outcome == "return"]
         bad = [r for r in rs if r.outcome not in ("return", "panic")]
